@@ -353,10 +353,6 @@ func (r *AmqpReader) parseHeaderFrame(channel uint16, size uint32) (frame frame,
 		return
 	}
 
-	if hf.Size > 512 {
-		return nil, ErrMaxHeaderFrameSize
-	}
-
 	var flags uint16
 
 	if err = binary.Read(r.R, binary.BigEndian, &flags); err != nil {
